@@ -457,7 +457,20 @@ func c05Round2(c *Ctx) {
 		sp := CallsTo(fn, "slashPool", "consensus/cometbft/apps/staking/state.slashPool", "")
 		var dsts []ssa.Value
 		for _, call := range sp.Calls() {
-			dsts = append(dsts, allArgs(call)[0])
+			// what slashPool took: the quantity it returns, or (older form) the destination it is handed first
+			if f := call.Common().StaticCallee(); f != nil && f.Signature.Results().Len() == 2 && strings.HasSuffix(typeStr(f.Signature.Results().At(0).Type()), "quantity.Quantity") {
+				if v, isV := call.(ssa.Value); isV && v.Referrers() != nil {
+					for _, r := range *v.Referrers() {
+						if ex, isEx := r.(*ssa.Extract); isEx && ex.Index == 0 {
+							dsts = append(dsts, ex)
+						}
+					}
+				}
+				continue
+			}
+			if a := allArgs(call); len(a) > 0 {
+				dsts = append(dsts, a[0])
+			}
 		}
 		ok := len(dsts) == 2
 		var credited ssa.Value
